@@ -8,3 +8,31 @@ FAMILY = dict(
               "random order, random white space, \\u escapes / surrogate pairs, unknown members (incl. case variants of known "
               "names) with arbitrary values"),
 )
+
+
+def decode_variants(valid, rnd):
+    """C07: the same document made LONG with insignificant white space (5-40 kB, every framing of the HTTP body by
+    length: announced, chunked, delimited by the close) through the real HTTP client: same response."""
+    import copy
+    if valid.notwf or not valid.want.startswith("OK") or rnd.random() < 0.8:
+        return []
+    c = valid.case()
+    if not c.script or c.script[0] == "X" or not c.script[0] or c.script[0][0] is None:
+        return []
+    doc = c.script[0][0]
+    out = []
+    for k, target in enumerate((5011, 5012, 5013, 5014, 5015, rnd.randrange(5016, 40000), rnd.randrange(5016, 40000), rnd.randrange(5016, 40000))):
+        if len(doc) >= target:
+            continue
+        pad = bytes(rnd.choice(b" \n\t\r") for _ in range(target - len(doc)))
+        at = rnd.choice([0, len(doc)])
+        c2 = valid.case()
+        c2.script[0][0] = doc[:at] + pad + doc[at:]
+        v = copy.copy(valid)
+        v.tags = dict(valid.tags)
+        v.id = f"{valid.id}L{k}"
+        line = c2.line(v.id).split(" ")
+        line[1] = "eco_http"
+        v.line = " ".join(line)
+        out.append(v)
+    return out
